@@ -2,6 +2,10 @@ package rules
 
 import (
 	"fmt"
+	"go/token"
+	"go/types"
+
+	"golang.org/x/tools/go/ssa"
 
 	"rcheck/engine"
 )
@@ -9,16 +13,74 @@ import (
 func init() { register("probe", probe) }
 
 func probe(r *engine.Report, p *engine.Program) {
-	fn := p.Func("(*workceptor.commandUnit).UnredactedStatus")
-	for _, ci := range engine.CallsIn(fn) {
-		fmt.Println(ci.String())
-		if op, ok := p.LockOpOf(ci); ok {
-			fmt.Println("   lockop", op.Path.String())
+	for _, fn := range p.Funcs() {
+		if !inPkg(fn, "netceptor", "utils") || engine.IsMock(fn) {
+			continue
 		}
-		if ci.Common().IsInvoke() {
-			for _, im := range p.ImplsOfMethod(ci.Common().Method) {
-				fmt.Println("   impl", engine.FuncName(im), len(im.Blocks))
+		for _, ci := range engine.CallsIn(fn) {
+			g, ok := ci.(*ssa.Go)
+			if !ok {
+				continue
+			}
+			for _, callee := range p.Callees(g) {
+				fmt.Printf("GO in %s -> %s\n", engine.FuncName(fn), engine.FuncName(callee))
+				for _, b := range callee.Blocks {
+					for _, in := range b.Instrs {
+						switch x := in.(type) {
+						case *ssa.Send:
+							fmt.Printf("    SEND %s  %s\n", p.Pos(x.Pos()), chanDesc(x.Chan))
+						case *ssa.UnOp:
+							if x.Op == token.ARROW {
+								fmt.Printf("    RECV %s  %s\n", p.Pos(x.Pos()), chanDesc2(x.X))
+							}
+						case *ssa.Select:
+							s := ""
+							for _, st := range x.States {
+								d := "<-"
+								if st.Dir == types.SendOnly {
+									d = "->"
+								}
+								s += d + chanDesc2(st.Chan) + " "
+							}
+							fmt.Printf("    SELECT blocking=%v %s %s\n", x.Blocking, p.Pos(x.Pos()), s)
+						case *ssa.Next:
+							if _, isChan := x.Iter.Type().Underlying().(*types.Chan); isChan {
+								fmt.Printf("    RANGECHAN %s\n", p.Pos(x.Pos()))
+							}
+						}
+					}
+				}
+			}
+		}
+		for _, ci := range engine.CallsIn(fn) {
+			if b, ok := ci.Common().Value.(*ssa.Builtin); ok && b.Name() == "close" {
+				fmt.Printf("CLOSE in %s: %s once=%v\n", engine.FuncName(fn), chanDesc2(ci.Common().Args[0]), onlyOnceBody(fn))
 			}
 		}
 	}
+}
+
+func chanDesc2(v ssa.Value) string {
+	if f, _ := engine.FieldOfLoad(v); f != nil {
+		return "field:" + f.Name()
+	}
+	switch x := v.(type) {
+	case *ssa.Call:
+		if o := engine.CalleeObj(x.Common()); o != nil {
+			return "call:" + o.Name()
+		}
+	case *ssa.FreeVar:
+		return "fv:" + x.Name()
+	case *ssa.Parameter:
+		return "param:" + x.Name()
+	case *ssa.UnOp:
+		return "load(" + chanDesc2(x.X) + ")"
+	case *ssa.MakeChan:
+		return "makechan"
+	case *ssa.ChangeType:
+		return chanDesc2(x.X)
+	case *ssa.Extract:
+		return "extract:" + chanDesc2(x.Tuple)
+	}
+	return v.Name() + ":" + fmt.Sprintf("%T", v)
 }
